@@ -75,7 +75,8 @@ impl RealVectorStateSpace {
                     });
                 }
                 for bound in &explicit_bounds {
-                    if bound.0 >= bound.1 {
+                    // `!(a < b)` also rejects NaN, which compares false either way.
+                    if !(bound.0 < bound.1) {
                         return Err(StateSpaceError::InvalidBound {
                             lower: bound.0,
                             upper: bound.1,
